@@ -222,11 +222,40 @@ def r3_repeat(report, repo):
                f.qualname, 'single-loop', f.node, 'one while loop')
   if len(loops) != 1:
     return
+  # names are taken from the code: `last` is what _execute_phase_once is given
+  # as its second argument, `count`/`limit` are the sides of its definition
+  once = core.calls_in(f.node, name='self._execute_phase_once')
+  report.expect_instances(rule, len(once), 1, '_execute_phase_once calls')
+  last = dotted(once[0].args[1]) if len(once[0].args) > 1 else None
+  lasts = [n for n in walk_no_nested(loops[0]) if isinstance(n, ast.Assign) and
+           last is not None and any(core.is_name(t, last) for t in n.targets)]
+  count = limit = None
+  ok = len(lasts) == 1 and isinstance(lasts[0].value, ast.Compare) and \
+      len(lasts[0].value.ops) == 1 and isinstance(
+          lasts[0].value.left, ast.Name) and isinstance(
+              lasts[0].value.comparators[0], ast.Name)
+  if ok:
+    cmp_ = lasts[0].value
+    if isinstance(cmp_.ops[0], ast.GtE):
+      count, limit = cmp_.left.id, cmp_.comparators[0].id
+    elif isinstance(cmp_.ops[0], ast.LtE):
+      limit, count = cmp_.left.id, cmp_.comparators[0].id
+    else:
+      ok = False
+  lims = [n for n in walk_no_nested(f.node) if isinstance(n, ast.Assign) and
+          limit is not None and any(core.is_name(t, limit) for t in n.targets)]
+  # the side that is `options.repeat_limit or DEFAULT` is the limit
+  ok = ok and len(lims) == 1
+  report.check(ok, rule, f.qualname, 'is_last_repeat', lasts[0] if lasts else
+               f.node, 'is_last_repeat = repeat_count >= repeat_limit, '
+               'recomputed every iteration',
+               'is_last_repeat is not `repeat_count >= repeat_limit`: the body '
+               'can be invoked more (or fewer) than repeat_limit times')
   # counter discipline
   inits = [n for n in walk_no_nested(f.node) if isinstance(n, ast.Assign) and
-           any(core.is_name(t, 'repeat_count') for t in n.targets)]
+           count is not None and any(core.is_name(t, count) for t in n.targets)]
   augs = [n for n in walk_no_nested(f.node) if isinstance(n, ast.AugAssign) and
-          core.is_name(n.target, 'repeat_count')]
+          count is not None and core.is_name(n.target, count)]
   ok = len(inits) == 1 and isinstance(inits[0].value, ast.Constant) and \
       inits[0].value.value == 1 and len(augs) == 1 and isinstance(
           augs[0].op, ast.Add) and isinstance(augs[0].value, ast.Constant) and \
@@ -237,23 +266,6 @@ def r3_repeat(report, repo):
                'repeat counter discipline broken (init %s, increments %s): the '
                'invocation bound repeat_limit no longer follows' %
                ([norm(x) for x in inits], [norm(x) for x in augs]))
-  lasts = [n for n in walk_no_nested(loops[0]) if isinstance(n, ast.Assign) and
-           any(core.is_name(t, 'is_last_repeat') for t in n.targets)]
-  ok = len(lasts) == 1 and isinstance(lasts[0].value, ast.Compare) and \
-      len(lasts[0].value.ops) == 1 and (
-          (isinstance(lasts[0].value.ops[0], ast.GtE) and
-           core.is_name(lasts[0].value.left, 'repeat_count') and
-           core.is_name(lasts[0].value.comparators[0], 'repeat_limit')) or
-          (isinstance(lasts[0].value.ops[0], ast.LtE) and
-           core.is_name(lasts[0].value.left, 'repeat_limit') and
-           core.is_name(lasts[0].value.comparators[0], 'repeat_count')))
-  report.check(ok, rule, f.qualname, 'is_last_repeat', lasts[0] if lasts else
-               f.node, 'is_last_repeat = repeat_count >= repeat_limit, '
-               'recomputed every iteration',
-               'is_last_repeat is not `repeat_count >= repeat_limit`: the body '
-               'can be invoked more (or fewer) than repeat_limit times')
-  lims = [n for n in walk_no_nested(f.node) if isinstance(n, ast.Assign) and
-          any(core.is_name(t, 'repeat_limit') for t in n.targets)]
   ok = len(lims) == 1 and isinstance(lims[0].value, ast.BoolOp) and isinstance(
       lims[0].value.op, ast.Or) and len(lims[0].value.values) == 2 and \
       ends_with(dotted(lims[0].value.values[0]) or '', 'options.repeat_limit') \
@@ -282,7 +294,7 @@ def r3_repeat(report, repo):
       return 'stopping'
     if call_name(expr) == 'self._should_repeat':
       return 'should_repeat'
-    if core.is_name(expr, 'is_last_repeat'):
+    if last is not None and core.is_name(expr, last):
       return 'last'
     return None
 
@@ -305,7 +317,7 @@ def r3_repeat(report, repo):
       return 'run-row: body not invoked'
     c0 = calls[0]
     a = [dotted(x) for x in c0.args]
-    if a[:2] != [lib.param_names(f.node)[1], 'is_last_repeat']:
+    if a[:2] != [lib.param_names(f.node)[1], last]:
       return 'run-row: _execute_phase_once not given (phase, is_last_repeat)'
     first_ret = p.index_of(lambda n: n.kind == 'stmt' and isinstance(
         n.ast, ast.Return))
@@ -458,42 +470,40 @@ def r4_run_if(report, repo):
           any((dotted(t) or '').endswith('.hit_repeat_limit')
               for t in n.targets)]
   report.expect_instances(rule5, len(hits), 1, 'hit_repeat_limit writes')
+  ov_names = []
+  last_param = lib.param_names(f.node)[2]
   for h in hits:
     nodes = g.nodes_of(h)
-
-    def edge(s, l, d):
-      return s.kind == 'test' and l == 'T' and (
-          (dotted(s.ast) or '').endswith('.is_repeat') or
-          core.is_name(s.ast, 'is_last_repeat'))
     # both conjuncts must dominate
     ok = all(
         g.dominated_by_edge(x, lambda s, l, d: s.kind == 'test' and l == 'T' and
                             (dotted(s.ast) or '').endswith('.is_repeat')) and
         g.dominated_by_edge(x, lambda s, l, d: s.kind == 'test' and l == 'T' and
-                            core.is_name(s.ast, 'is_last_repeat'))
+                            core.is_name(s.ast, last_param))
         for x in nodes)
     ok = ok and isinstance(h.value, ast.Constant) and h.value.value is True
     report.check(ok, rule5, f.qualname, 'hit_repeat_limit-guard', h,
                  'hit_repeat_limit set only for a REPEAT result on the last '
                  'allowed invocation')
     blk = h._parent.body if hasattr(h._parent, 'body') else []
-    ov = [n for n in blk if isinstance(n, ast.Assign) and any(
-        core.is_name(t, 'override_result') for t in n.targets) and any(
-            ends_with(dotted(x) or '', 'PhaseResult.STOP')
-            for x in ast.walk(n.value))]
+    ov = [n for n in blk if isinstance(n, ast.Assign) and len(n.targets) == 1
+          and isinstance(n.targets[0], ast.Name) and any(
+              ends_with(dotted(x) or '', 'PhaseResult.STOP')
+              for x in ast.walk(n.value))]
     report.check(len(ov) == 1, rule5, f.qualname, 'override-stop', h,
                  'exceeding the repeat limit overrides the result with STOP')
-  rets = [n for n in walk_no_nested(f.node) if isinstance(n, ast.Return)]
-  final = rets[-1]
-  res = [n for n in walk_no_nested(f.node) if isinstance(n, ast.Assign) and
-         any(core.is_name(t, 'result') for t in n.targets) and isinstance(
-             n.value, ast.BoolOp)]
-  ok = bool(res) and isinstance(res[-1].value.op, ast.Or) and core.is_name(
-      res[-1].value.values[0], 'override_result') and (dotted(
-          res[-1].value.values[1]) or '').endswith('.result') and isinstance(
-              final.value, ast.Tuple) and core.is_name(final.value.elts[0],
-                                                      'result')
-  report.check(ok, rule5, f.qualname, 'final-result', final,
+    if len(ov) == 1:
+      ov_names.append(ov[0].targets[0].id)
+  rets = [n for n in g.nodes if isinstance(n.ast, ast.Return)]
+  final = max(rets, key=lambda n: n.ast.lineno)
+  first = final.ast.value.elts[0] if isinstance(
+      final.ast.value, ast.Tuple) and final.ast.value.elts else final.ast.value
+  vals = lib.value_exprs(g, final, first)
+  ok = bool(ov_names) and bool(vals) and all(
+      isinstance(v, ast.BoolOp) and isinstance(v.op, ast.Or) and
+      len(v.values) == 2 and core.is_name(v.values[0], ov_names[0]) and
+      (dotted(v.values[1]) or '').endswith('.result') for v in vals)
+  report.check(ok, rule5, f.qualname, 'final-result', final.ast,
                'returned result = override_result or the (refreshed) phase '
                'state result')
 
@@ -504,23 +514,25 @@ def r5_thread_proc(report, repo, rule='C05-R5'):
               '=> raise; _thread_exception stores the exception outcome and '
               'suppresses propagation; repeat-limit hit => STOP override')
   f = repo.func(PE, 'PhaseExecutorThread._thread_proc')
+  # the local holding what the phase function returned
+  pr = lib.local_from(f, lib.calls(name='self._phase_desc'), 'phase_return')
 
   def classify(expr, steps):
     if isinstance(expr, ast.Compare) and len(expr.ops) == 1:
       l, r, op = expr.left, expr.comparators[0], expr.ops[0]
-      if core.is_name(l, 'phase_return') and isinstance(r, ast.Constant) and \
+      if core.is_name(l, pr) and isinstance(r, ast.Constant) and \
           r.value is None and isinstance(op, (ast.Is, ast.Eq)):
         reassigned = any(
             n.kind == 'stmt' and isinstance(n.ast, ast.Assign) and
-            any(core.is_name(t, 'phase_return') for t in n.ast.targets) and
+            any(core.is_name(t, pr) for t in n.ast.targets) and
             not isinstance(n.ast.value, ast.Call) for n, _ in steps)
         return False if reassigned else 'ret_none'
-      if core.is_name(l, 'phase_return') and ends_with(
+      if core.is_name(l, pr) and ends_with(
           dotted(r) or '', 'PhaseResult.FAIL_SUBTEST') and isinstance(
               op, (ast.Is, ast.Eq)):
         return 'fail_subtest'
     if call_name(expr) == 'isinstance' and core.is_name(expr.args[0],
-                                                        'phase_return') and \
+                                                        pr) and \
         ends_with(dotted(expr.args[1]) or '', 'PhaseResult'):
       return 'is_result'
     if dotted(expr) == 'self._subtest_rec':
@@ -554,11 +566,11 @@ def r5_thread_proc(report, repo, rule='C05-R5'):
       return 'valid-row: outcome stored %d times' % len(stores)
     val = stores[0].ast.value
     ok = isinstance(val, ast.Call) and last_attr(val) == \
-        'PhaseExecutionOutcome' and core.is_name(val.args[0], 'phase_return')
+        'PhaseExecutionOutcome' and core.is_name(val.args[0], pr)
     if not ok:
       return 'valid-row: stored outcome does not wrap the phase return value'
     if v['ret_none']:
-      re = [n for n in _assign_nodes(p, 'phase_return')
+      re = [n for n in _assign_nodes(p, pr)
             if ends_with(dotted(n.ast.value) or '', 'PhaseResult.CONTINUE')]
       if len(re) != 1:
         return 'none-row: None is not defaulted to CONTINUE'
